@@ -144,6 +144,85 @@ theorem disj_removed_any (hi : GInv w) {rm : Member}
 
 end Commit
 
+/-! ### external commits -/
+
+/-- global freshness for an external commit -/
+def FreshAllExt (w : GroupWorld) (L0 nl : Leaf) (fresh : Nat) : Prop :=
+  ∀ m ∈ w.members, NoReintroExt (keysOf m.priv) L0 nl fresh
+
+instance (w : GroupWorld) (L0 nl : Leaf) (fresh : Nat) : Decidable (FreshAllExt w L0 nl fresh) := by
+  unfold FreshAllExt; infer_instance
+
+section ExtCommit
+variable {w w' : GroupWorld} {tr : Transcript} {gi : Nat} {remove : Option Nat} {L0 nl : Leaf}
+  {fresh : Nat} {psk : Sec} {ctx : Nat} {deliverTo : List Nat}
+
+/-- a node of the tree after an external commit whose key is a stamp of `K` was there before (and after the
+Remove), with the same key -/
+theorem node_source_ext (hi : GInv w) (hok : ExtOk w remove L0 nl fresh) {K : List Key}
+    (hnr : NoReintroExt K L0 nl fresh)
+    (h : w.externalCommit gi remove L0 nl fresh psk ctx deliverTo = .ok (w', tr))
+    {i : Nat} {N : Node} (hg : get w'.tree i = some N) (hk : Key.node N.key ∈ K) :
+    ∃ a t1 N1 N0, batchEdit w.tree (extEdits remove) = .ok (a, t1) ∧ get t1 i = some N1 ∧ N1.key = N.key ∧
+      get w.tree i = some N0 ∧ N0.key = N.key := by
+  obtain ⟨gm, t1, self, t1x, o, ms, hc⟩ := externalCommit_inv h
+  obtain ⟨a, hb⟩ := hc.edit
+  have hx := ext_edit hi hok hc
+  have h1 := hnr _ hk
+  simp only [noReintroExt1] at h1
+  rw [hc.world] at hg
+  rcases node_source_encap ⟨L0, hx.leaf⟩ hc.enc hg with h2 | h2 | h2
+  · rcases node_source_batchEdit hx.wf1 hx.second h2 with ⟨N1, h3, h4⟩ | h3
+    · rcases node_source_batchEdit hi.good.1 hb h3 with ⟨N0, h5, h6⟩ | h5
+      · exact ⟨a, t1, N1, N0, hb, h3, h4, h5, by rw [h6, h4]⟩
+      · simp [newLeafStamps, extEdits] at h5
+    · simp only [newLeafStamps, List.map_nil, List.append_nil, List.map_cons, List.mem_singleton] at h3
+      exact absurd h3 h1.1
+  · exact absurd h2 h1.2.1
+  · have := h1.2.2; omega
+
+theorem holdsOnPath_ext (hi : GInv w) (hok : ExtOk w remove L0 nl fresh) {p : Priv}
+    (hp : HoldsOnPath w.tree p) (hnr : NoReintroExt (keysOf p) L0 nl fresh)
+    (h : w.externalCommit gi remove L0 nl fresh psk ctx deliverTo = .ok (w', tr)) :
+    HoldsOnPath w'.tree p := by
+  intro st hst i N hg hN
+  subst hN
+  obtain ⟨_, _, _, N0, _, _, _, h3, h4⟩ := node_source_ext hi hok hnr h hg hst
+  exact hp _ hst i N0 h3 h4
+
+theorem onPath_ext (hi : GInv w) (hok : ExtOk w remove L0 nl fresh) (ho : OnPath w)
+    (hf : FreshAllExt w L0 nl fresh)
+    (h : w.externalCommit gi remove L0 nl fresh psk ctx deliverTo = .ok (w', tr)) : OnPath w' := by
+  have hi' := ginv_ext hi hok h
+  obtain ⟨he, _, _, hall⟩ := ext_cases hi h
+  intro m' hm'
+  rcases hall m' hm' with ⟨hm, _⟩ | ⟨hcur, _⟩
+  · exact holdsOnPath_ext hi hok (ho m' hm) (hf m' hm) h
+  · obtain ⟨_, hk⟩ := hi'.good.2 _ (current_priv_mem hm' (by rw [hcur, he]))
+    exact holdsOnPath_of_keyInv hi'.good.1.2.1 hk
+
+/-- the Remove of an external commit takes all stamps of the party at that leaf out of the tree — whatever
+epoch that party is in -/
+theorem disj_removed_any_ext (hi : GInv w) (hok : ExtOk w remove L0 nl fresh) {rm : Member}
+    (hp : HoldsOnPath w.tree rm.priv) (hrem : remove = some rm.priv.self)
+    (hnr : NoReintroExt (keysOf rm.priv) L0 nl fresh)
+    (h : w.externalCommit gi remove L0 nl fresh psk ctx deliverTo = .ok (w', tr)) :
+    Disj (keysOf rm.priv) w'.tree := by
+  intro st hst hm
+  obtain ⟨i, N, hg, rfl⟩ := mem_keyStamps.1 hm
+  obtain ⟨a, t1, N1, N0, hb, hg1, _, h3, h4⟩ := node_source_ext hi hok hnr h hg hst
+  have hpos := hp _ hst i N0 h3 h4
+  have hes := batchEdit_editSpec hi.good.1.1.1 hb
+  have ha : a = [] := List.eq_nil_of_length_eq_zero (by simpa [extEdits] using hes.added_length)
+  have hr : rm.priv.self ∈ (extEdits remove).removes := by simp [extEdits, hrem]
+  rcases hpos with rfl | ⟨hodd, hbel⟩
+  · have := hes.removed_leaf _ hr (by rw [ha]; simp)
+    rw [hg1] at this; cases this
+  · have := hes.touched_path_blank _ (List.mem_append_left _ hr) i hodd hbel
+    rw [hg1] at this; cases this
+
+end ExtCommit
+
 /-- histories in which every new key is new for every followed party -/
 inductive ReachableF : GroupWorld → Prop
   | init (l : Leaf) : ReachableF (GroupWorld.init l)
@@ -151,11 +230,16 @@ inductive ReachableF : GroupWorld → Prop
       {fresh : Nat} {psk : Sec} {ctx : Nat} {deliverTo : List Nat} :
       ReachableF w → CommitOk w sender e newLeaf fresh → FreshAll w e newLeaf fresh →
       w.commit sender e newLeaf fresh psk ctx deliverTo = .ok (w', tr) → ReachableF w'
+  | ext {w w' : GroupWorld} {tr : Transcript} {gi : Nat} {remove : Option Nat} {L0 nl : Leaf}
+      {fresh : Nat} {psk : Sec} {ctx : Nat} {deliverTo : List Nat} :
+      ReachableF w → ExtOk w remove L0 nl fresh → FreshAllExt w L0 nl fresh →
+      w.externalCommit gi remove L0 nl fresh psk ctx deliverTo = .ok (w', tr) → ReachableF w'
 
 theorem ReachableF.reachable {w : GroupWorld} (h : ReachableF w) : Reachable w := by
   induction h with
   | init l => exact .init l
   | commit _ hok _ hc ih => exact .commit ih hok hc
+  | ext _ hok _ hc ih => exact .ext ih hok hc
 
 theorem reachableF_onPath {w : GroupWorld} (h : ReachableF w) : OnPath w := by
   induction h with
@@ -165,5 +249,6 @@ theorem reachableF_onPath {w : GroupWorld} (h : ReachableF w) : OnPath w := by
     subst this
     exact holdsOnPath_of_keyInv (wf_single l).2.1 ((init_good l).2 _ (List.mem_singleton.2 rfl)).2
   | commit hr hok hf hc ih => exact onPath_commit (reachable_ginv hr.reachable) hok ih hf hc
+  | ext hr hok hf hc ih => exact onPath_ext (reachable_ginv hr.reachable) hok ih hf hc
 
 end MlsVerif.Group
